@@ -420,6 +420,23 @@ def rule_disc(ctx) -> None:
                   f"sidecar name is <snapshot>{suf}: never ends with '.json'", f"sidecar name `{src(inl)[:50]}` can end with '.json' and be picked as a snapshot")
 
 
+def rule_edge_ids_injective(ctx) -> None:
+    """"restores ... the GEL graph that was written": the normaliser files every edge under an id built from src, dst and rel,
+    and the writer / loader re-key under src→dst.  Joined with a separator the node ids may contain, edges between DIFFERENT
+    node pairs get one id and one of them is silently missing from the body."""
+    from ..util import separator_joined_ids
+    hits = []
+    for q in (SNAP + ":_edge_id", SNAP + ":write_snapshot", SNAP + ":load_latest_snapshot"):
+        fn = ctx.func(q)
+        for x, sep in separator_joined_ids(fn):
+            if sep in ("__", "→"):
+                hits.append((fn, x, sep))
+    seps = sorted({h[2] for h in hits})
+    ctx.check(not hits, "C06.SYM", f"{SNAP}/edge-ids-tell-pairs-apart", hits[0][0].loc(hits[0][1]) if hits else "clematis/engine/snapshot.py", "node ids are escaped before they are joined into an edge id",
+              (f"edge ids / body keys are built by joining node ids with {seps} as they are ({len(hits)} constructions): ('a__b','c') and ('a','b__c') both give a__b__c__coact, ('a→b','c') and ('a','b→c') both "
+               "give a→b→c - one of the two edges is lost between the state and the body, nothing is reported") if hits else "")
+
+
 def rule_agent_file_names(ctx) -> None:
     """"for all agents": the body an agent writes is the body its loader looks for, in the snapshot directory.  The agent id is
     ONE component of the name `state_<agent>.json`: wherever the module builds that name, the id has passed an encoding of
@@ -725,6 +742,7 @@ def run(ctx) -> None:
     rule_load_keeps_record(ctx)
     rule_table(ctx)
     rule_sym(ctx)
+    rule_edge_ids_injective(ctx)
     rule_clamp(ctx)
     rule_every_record_reaches_the_body(ctx)
     rule_disc(ctx)
